@@ -1,6 +1,6 @@
 (* what the generated case files import *)
 From Coq Require Export List Bool NArith.
-From PFL Require Export Base.ListSet Spec.Enfa Model.Enfa Model.EnfaOps Proofs.EnfaShapes
+From PFL Require Export Base.ListSet Spec.Enfa Model.Enfa Model.EnfaOps Model.EnfaWords Proofs.EnfaShapes
   Oracle.EnfaEquiv Oracle.EnfaMinimal.
 Export ListNotations.
 #[global] Open Scope N_scope.
